@@ -13,4 +13,5 @@ import Rtcp.Props.Compose
 import Rtcp.Props.Total
 import Rtcp.Props.Layout
 import Rtcp.Props.Setters
+import Rtcp.Props.EndToEnd
 import Rtcp.Props.Pins
